@@ -97,9 +97,14 @@ class Ctx:
                     lit = line.strip()
                     lit = lit[lit.index(", ") + 2:-2]
                     try:
-                        fo.write(json.loads(lit) + "\n")
+                        inner = json.loads(lit)
+                        json.loads(inner)
                     except Exception:
-                        raise Inconclusive("cannot decode emitted line: " + line[:200])
+                        # two TLC workers printing very long lines at once can interleave them: such a line (and the
+                        # orphaned rest of it further down) is dropped - the emitted scenarios are sampled anyway
+                        res["garbled"] = res.get("garbled", 0) + 1
+                        continue
+                    fo.write(inner + "\n")
                     res["emitted"] += 1
                     continue
                 m = re.match(r"(\d+) states generated, (\d+) distinct states found", line)
@@ -121,6 +126,8 @@ class Ctx:
             os.remove(out)  # can be gigabytes
             with open(out, "w") as f:
                 f.write("(emitted lines moved to %s)\n...\n%s" % (res["emitted_file"], tail))
+        if res.get("garbled", 0) > max(5, res["emitted"] // 100):
+            raise Inconclusive("%d of %d emitted lines of %s %s are garbled" % (res["garbled"], res["emitted"] + res["garbled"], module, cfg))
         if res["states"] == 0:
             raise Inconclusive("TLC produced no state count for %s %s (see %s)\n%s" % (module, cfg, out, tail))
         if sorted(set(res["violated"])) != sorted(set(expect_violations)):
